@@ -124,6 +124,10 @@ fn collect(vs: &[AV], tasks: &mut Vec<usize>, ress: &mut Vec<usize>) {
 }
 
 thread_local! { static INTRUDE: std::cell::Cell<bool> = const { std::cell::Cell::new(false) }; }
+// mode `streamdrop1`: before the streaming render under test, a streaming render of the same view is started on the SAME
+// executor, fed these events, and abandoned (the stream is dropped; its aborted tasks are still queued when the next
+// render starts)
+thread_local! { static ABANDON_FIRST: RefCell<Option<Vec<String>>> = const { RefCell::new(None) }; }
 
 /// modes `blockx` / `streamx`: between the events of the render under test, complete renders of an unrelated,
 /// task-free view are carried out on the same thread in the OTHER modes (renders are isolated from each other)
@@ -252,6 +256,18 @@ fn render_stream(vs: &[AV], events: &[String]) -> Result<(String, Vec<Vec<String
         let rt = tokio::runtime::Builder::new_current_thread().build().unwrap();
         let local = tokio::task::LocalSet::new();
         local.block_on(&rt, async move {
+            let mut keep_alive = None;
+            if let Some(ev0) = ABANDON_FIRST.with(|a| a.borrow_mut().take()) {
+                let (f0, mut s0) = view_fn(&vs);
+                let mut st0 = Box::pin(sycamore::web::render_to_string_stream(f0));
+                drain().await;
+                while let Some(Some(_)) = futures::FutureExt::now_or_never(StreamExt::next(&mut st0)) {}
+                for e in ev0.iter() { s0.fire(e); drain().await; while let Some(Some(_)) = futures::FutureExt::now_or_never(StreamExt::next(&mut st0)) {} }
+                drop(st0);
+                // (no executor turn here: the next render starts at once; the first one's senders stay alive)
+                keep_alive = Some(s0);
+                NODE_COUNTS.with(|c| c.borrow_mut().clear());
+            }
             let (f, mut s) = view_fn(&vs);
             let stream = sycamore::web::render_to_string_stream(f);
             let mut stream = Box::pin(stream);
@@ -288,6 +304,8 @@ fn render_stream(vs: &[AV], events: &[String]) -> Result<(String, Vec<Vec<String
             for e in rest { s.fire(&e); drain().await; let _ = take(&mut stream, &mut None, 0); }
             drain().await;
             let _ = take(&mut stream, &mut None, 0);
+            drop(keep_alive);
+            drain().await;
             (shell, per, ended)
         })
     })
@@ -407,6 +425,12 @@ fn exec(line: &str) -> (String, Option<String>, bool) {
     let mut verdict: Option<String> = None;
     NODE_COUNTS.with(|c| c.borrow_mut().clear());
     let (mode, intr) = match mode { "blockx" => ("block", true), "streamx" => ("stream", true), m => (m, false) };
+    let (mode, events) = if mode == "streamdrop1" {
+        let (mut tasks, mut ress) = (vec![], vec![]);
+        collect(&vs, &mut tasks, &mut ress);
+        ABANDON_FIRST.with(|a| *a.borrow_mut() = Some(events.clone()));
+        ("stream", tasks.iter().map(|t| format!("c{t}")).chain(ress.iter().map(|r| format!("r{r}"))).collect::<Vec<String>>())
+    } else { (mode, events) };
     INTRUDE.with(|i| i.set(intr));
     let obs = exec_mode(mode, &vs, &events, &mut verdict);
     INTRUDE.with(|i| i.set(false));
@@ -626,6 +650,8 @@ pub fn generate(args: &Args) -> Vec<String> {
             // an incomplete schedule: the last completion never happens
             if p.len() > 1 { let q = p[..p.len() - 1].join(","); l.push(format!("assr block {f} {q}")); l.push(format!("assr stream {f} {q}")); l.push(format!("assr blockdrop {f} {q}")); }
             if p.len() == 1 { l.push(format!("assr blockdrop {f} -")); }
+            if p.len() > 1 { let q = p[..p.len() - 1].join(","); l.push(format!("assr streamdrop1 {f} {q}")); }
+            l.push(format!("assr streamdrop1 {f} -"));
         }
     }
     let n = if thorough { 20_000 } else { 700 };
@@ -648,6 +674,7 @@ pub fn generate(args: &Args) -> Vec<String> {
         if rng.chance(1, 3) { l.push(format!("assr {} {s} {e}", if rng.chance(1, 2) { "blockx" } else { "streamx" })); }
         if !evs.is_empty() && rng.chance(1, 3) {
             let cut = rng.below(evs.len());
+            l.push(format!("assr streamdrop1 {s} {}", if cut == 0 { "-".to_string() } else { evs[..cut].join(",") }));
             l.push(format!("assr blockdrop {s} {}", if cut == 0 { "-".to_string() } else { evs[..cut].join(",") }));
         }
     }
@@ -662,7 +689,7 @@ pub fn run(args: &Args) {
     if !only { lines.extend(generate(args)); }
     for l in &lines {
         crate::asyncx::PANIC_LOG.with(|p| p.borrow_mut().clear());
-        begin_case(l);
+        begin_case_logged(l, &args.out, "assr");
         let (obs, mut verdict, nt) = exec(l);
         let panics: Vec<String> = crate::asyncx::PANIC_LOG.with(|p| p.borrow_mut().drain(..).collect());
         if verdict.is_none() && !panics.is_empty() && !obs.contains("panic") {
